@@ -1,4 +1,5 @@
-import AcqVerif.Runtime.Data.FinReach
+import AcqVerif.Runtime.Data.StopReach
+import AcqVerif.Runtime.Clean
 /-!
 # C04 — every acquired frame reaches storage exactly once, in order, bit-exact
 
@@ -21,6 +22,10 @@ has no scripted fault:
 * `undisturbed_acquisition_is_complete`: once the sink has ended its final flush normally (`drained`: an empty read with the
   storage still Running) in a run that nobody disturbed (no abort, no storage failure, no failed start, no re-configuration
   while it ran), the storage holds **exactly** the camera's frames `0 … N-1`, `N = max_frame_count`.
+
+* `stopped_undisturbed_acquisition_is_complete`: … and that is the case whenever the runtime is at rest (client outside
+  start/stop/abort, state not Running) after an undisturbed acquisition: when `acquire_stop` has returned, all `N` frames are
+  in the storage.
 
 The premise `clean` (the sink's reader had consumed everything when the storage was started) holds after every
 `acquire_stop`/`acquire_abort` (they flush the sink's reader) and initially; it is a ghost recorded by the model at `start`.
@@ -156,6 +161,23 @@ theorem undisturbed_acquisition_is_complete (hf : (getS rt s).cam.failAt = none)
     omega
   rw [hall]
   simp [expected, List.map_map, Function.comp_def]
+
+/-- (5) **C04, end to end**: whenever the runtime is at rest after an acquisition of stream `s` that nobody disturbed — the
+client outside `acquire_start`/`acquire_stop`/`acquire_abort`, `runtime.state` not Running, which is the state in which
+`acquire_stop` returns — the storage holds exactly the camera's frames `0 … N-1`: a sink thread that has ended in an
+undisturbed run has ended through its final, empty read (`DStop.ended`), never through its error path. -/
+theorem stopped_undisturbed_acquisition_is_complete (hf : (getS rt s).cam.failAt = none) (he : (getS rt s).cam.emptyEvery = 0)
+    (hm : rt.client.misused = false) (hF : 0 < (getS rt s).F) (hc : (getS rt s).sto.clean = true)
+    (hq : quiet rt.client.pc = true) (hs : rt.state ≠ .running) (hrun : 0 < (getS rt s).sto.run)
+    (hnd : (getS rt s).sto.disturbed = false) :
+    (getS rt s).sto.log = (List.range (getS rt s).maxFrames).map (fun j => (⟨(getS rt s).cam.run, j, j⟩ : Frame)) := by
+  have hcl := idle_is_clean rt h hq hs s
+  have d := DStop.micro rt h s hf he hm hF
+  have h0 := stage_of_quiet rt.client.pc s hq
+  rcases d.ended (.inr hcl.1.2.2) hrun with e | e | e
+  · exact undisturbed_acquisition_is_complete rt h s hf he hm hF hc e hnd
+  · rw [hnd] at e; cases e
+  · omega
 
 omit h in
 /-- two streams never mix: the invariants are per stream, and an action of a worker of stream `s` changes no other
